@@ -110,6 +110,10 @@ def run_case(idx):
             messages.append(f"{out[0]}: {out[1]}")
         if out[0] == "raise" and len(messages) < 3:
             messages.append(f"raise: {type(out[1]).__name__}: {str(out[1])[:160]}")
+        if out[0] == "raise" and isinstance(out[1], shims.HarnessError) and err is None:
+            # a HarnessError raised inside a case function ends the path like a library exception would
+            # (core.explore); it must surface as a harness error (exit 2), never pass silently
+            err = f"HarnessError: {out[1]}"
     res = dict(id=case.id, paths=len(results), outcomes=outcomes, truncated=truncated, error=err,
                wall=time.time() - t0, functions=sorted(state["functions"]), messages=messages,
                allow_unsupported=case.allow_unsupported, bounds=case.bounds, group=case.group)
@@ -183,7 +187,45 @@ def match_known(known, prop, case_id, label):
     return None
 
 
-def replay_candidate(prop, cand, tier):
+def replay_batch(prop, groups, tier, jobs=1):
+    """opt-in (harness module sets BATCH_REPLAY = True; its cases must not touch global unyt state): replay the models of
+    the first candidate of every (case, label) group in a few subprocesses instead of one interpreter start per model.
+    Only *reproduced* results are taken from the batch; everything else falls back to the one-subprocess-per-model route."""
+    d = os.path.join(ROOT, "replays", prop)
+    os.makedirs(d, exist_ok=True)
+    items, index = [], []
+    for key, cands in sorted(groups.items()):
+        c = cands[0]
+        for mi, model in enumerate(c["models"]):
+            items.append(dict(case=c["case"], label=c["label"], model=model))
+            index.append((id(c), mi))
+    nchunk = max(1, min(jobs, len(items) // 32))
+    chunks = [list(range(i, len(items), nchunk)) for i in range(nchunk)]
+
+    def run_chunk(ci):
+        path = os.path.join(d, f"_batch{ci}.json")
+        json.dump(dict(property=prop, tier=tier, items=[items[i] for i in chunks[ci]]), open(path, "w"))
+        try:
+            r = subprocess.run([PY, "-m", "symx.replay", path, "--batch"], cwd=ROOT, capture_output=True, text=True,
+                               timeout=3600, env=dict(os.environ, VERIF_REPO=REPO))
+            outs = json.loads(r.stdout.strip().splitlines()[-1])
+            return {index[i]: o for i, o in zip(chunks[ci], outs) if o.get("reproduced")}
+        except Exception:
+            return {}
+        finally:
+            try:
+                os.remove(path)
+            except OSError:
+                pass
+    from multiprocessing.pool import ThreadPool
+    pre = {}
+    with ThreadPool(nchunk) as tp:
+        for part in tp.map(run_chunk, range(nchunk)):
+            pre.update(part)
+    return pre
+
+
+def replay_candidate(prop, cand, tier, pre=None):
     d = os.path.join(ROOT, "replays", prop)
     os.makedirs(d, exist_ok=True)
     for mi, model in enumerate(cand["models"]):
@@ -191,6 +233,11 @@ def replay_candidate(prop, cand, tier):
         h = hashlib.sha1(json.dumps([cand["case"], cand["label"]], sort_keys=True).encode()).hexdigest()[:12]
         path = os.path.join(d, f"{h}.json")
         json.dump(payload, open(path, "w"), indent=1)
+        out = (pre or {}).get((id(cand), mi))
+        if out is not None:
+            payload["replay_result"] = out
+            json.dump(payload, open(path, "w"), indent=1)
+            return path, out
         r = subprocess.run([PY, "-m", "symx.replay", path], cwd=ROOT, capture_output=True, text=True, timeout=600,
                            env=dict(os.environ, VERIF_REPO=REPO))
         try:
@@ -320,12 +367,24 @@ def main(argv=None):
     for cand in tot["candidates"]:
         groups.setdefault((cand["case"], cand["label"]), []).append(cand)
     seen_keys = set(groups)
-    for key, cands in sorted(groups.items()):
-        path, out = None, None
+    pre = replay_batch(prop, groups, a.tier, a.jobs) if (getattr(H, "BATCH_REPLAY", False) and len(groups) > 8) else None
+    def _replay_group(item):
+        key, cands = item
+        path, out, cand = None, None, None
         for cand in cands[:4]:
-            path, out = replay_candidate(prop, cand, a.tier)
+            path, out = replay_candidate(prop, cand, a.tier, pre)
             if path is not None:
                 break
+        return key, cand, path, out
+
+    items = sorted(groups.items())
+    if len(items) > 2 and a.jobs > 1:  # replays are independent subprocesses writing distinct files: run them concurrently
+        from multiprocessing.pool import ThreadPool
+        with ThreadPool(min(a.jobs, len(items))) as tp:
+            replayed = tp.map(_replay_group, items)
+    else:
+        replayed = [_replay_group(it) for it in items]
+    for key, cand, path, out in replayed:
         if path is None:
             nonrepro.append(f"{key[0]}::{key[1]} -> {str(out)[:300]}")
             continue
